@@ -304,7 +304,24 @@ fn gen_size(r: &mut Rng) -> f64 {
         _ => gen_f64(r),
     }
 }
+/// names over the whole alphabet: since fix_name_escape white space, delimiters and '#' are #XX-escaped at emission
 fn gen_name(r: &mut Rng) -> String {
+    let mut s = gen_word(r);
+    if r.chance(1, 3) {
+        const BAD: &[&str] = &[" ", "\t", "\n", "\r", "\u{c}", "/", "(", ")", "<", ">", "[", "]", "{", "}", "%", "#", "#20", "#4", "#zz", "#+5", "<<", ">>", " Do"];
+        for _ in 0..r.range(1, 3) {
+            let chars: Vec<char> = s.chars().collect();
+            let pos = r.below(chars.len() as u64 + 1) as usize;
+            let mut o: String = chars[..pos].iter().collect();
+            o.push_str(*r.pick(BAD));
+            o.extend(chars[pos..].iter());
+            s = o;
+        }
+    }
+    s
+}
+/// regular characters only (comments, which end at a line feed)
+fn gen_word(r: &mut Rng) -> String {
     const ALPHA: &[&str] = &["A", "b", "Z", "q", "0", "7", "F", "Im", "GS", "-", "_", ".", "+", "*", "@", "!", "'", "\"", ":", ",", ";", "=", "~", "^", "é", "中", "\u{0}", "\u{7f}", "\u{1F600}", "&", "$", "|", "\\", "?"];
     let n = match r.below(10) {
         0 => 0,
@@ -379,7 +396,7 @@ fn gen_op(r: &mut Rng, open_mc: &mut u32, tame: bool) -> M {
                     .collect(),
             )
         }
-        91..=92 => VOp::Comment(gen_name(r) + " x"),
+        91..=92 => VOp::Comment(gen_word(r) + " x"),
         93..=95 => {
             *open_mc += 1;
             return M::Bdc(gen_name(r));
